@@ -857,6 +857,8 @@ func (multi *MultiEpoch) processSlotTransactions(
 						txResp.Transaction.Transaction = tx.Transaction
 						txResp.Transaction.Meta = tx.Meta
 						txResp.Transaction.Index = tx.Index
+						txResp.Index = tx.Index
+						txResp.Slot = slot
 
 						epochNumber := slottools.CalcEpochForSlot(slot)
 						epochHandler, err := multi.GetEpoch(epochNumber)
